@@ -52,7 +52,7 @@ func widen(b []byte) []int32 {
 }
 
 func checkC17(c *Ctx) {
-	c.rule = "byte strings = characters of width 2/3/4 straddling every 4096-byte block boundary at every split offset, boundary sizes, BOM variants, legitimate U+FFFD, every single-byte corruption (overwrite 0x80/0xC0/0xF8/0xFF, delete, truncate) of small valid programs, overlong/surrogate encodings, GBK text; each through FileStream.ReadAll, ByteStream.ReadAll, chunked Read(n) for n in 1..17 and random n, FileStream.ReadAll over a named pipe whose writer pauses at chosen offsets (after the BOM, inside characters), the same marker programs as the SourceCode field of a playground request (raw body bytes), and end-to-end LoadFile+Execute of marker programs, among them valid files with 22 unusual characters (U+0000, controls, U+2028, U+FEFF, noncharacters, …) in a literal / a comment / between statements / at a line start / at the end: rejected as a whole or run completely. Oracle: unicode/utf8 (Valid + []rune). distinct_nontrivial = distinct (case family, validity, reader mode) x byte-level shape hashes with at least one multi-byte character or corruption"
+	c.rule = "byte strings = characters of width 2/3/4 straddling every 4096-byte block boundary at every split offset, boundary sizes, BOM variants, legitimate U+FFFD, every single-byte corruption (overwrite 0x80/0xC0/0xF8/0xFF, delete, truncate) of small valid programs, overlong/surrogate encodings, GBK text; each through FileStream.ReadAll, ByteStream.ReadAll, chunked Read(n) for n in 1..17 and random n, FileStream.ReadAll over a named pipe whose writer pauses at chosen offsets (after the BOM, inside characters), the same marker programs as the SourceCode field of a playground request (raw body bytes), and end-to-end LoadFile+Execute of marker programs, among them valid files with 22 unusual characters (U+0000, controls, U+2028, U+FEFF, noncharacters, …) in a literal / a comment / between statements / at a line start / at the end: rejected as a whole or run completely. and 8 goroutines that load and run different multi-block files (each with a module) at the same time under the race detector. Oracle: unicode/utf8 (Valid + []rune). distinct_nontrivial = distinct (case family, validity, reader mode) x byte-level shape hashes with at least one multi-byte character or corruption"
 	c.assumptions = []string{"Go's unicode/utf8 is the reference decoder", "a leading BOM is judged only for FileStream (source files); ByteStream may keep or drop it"}
 	rng := c.Rand("c17")
 	cases := []c17Case{}
@@ -397,6 +397,30 @@ func checkC17(c *Ctx) {
 			c.Violation(key, fmt.Sprintf("playground request whose SourceCode (%s) is not valid UTF-8 was executed: %d of %d marker lines displayed, status %v, response %q", e.name, shown, e.markers, resp.Ints, clip(resp.Val.String(), 120)), rp)
 		}
 	})
+	// source files read at the same time: 8 goroutines each load and run a different multi-block
+	// main file with a module of its own, again and again (a -race build; every execution must
+	// yield the value of its own file)
+	if bin, err := buildTool(c, "./srvharness", "srvharness", true); err != nil {
+		c.Inconclusive(err.Error())
+	} else if sum, blocks, sigs, err := runHarness(c, bin, "bigfiles", 8, c.Pick(40, 400), c.Seed, "bigfiles"); err != nil {
+		c.Inconclusive("bigfiles: " + err.Error())
+	} else {
+		c.Count("concurrent_file_executions", int64(sum.Requests))
+		c.Nontrivial(fmt.Sprintf("bigfiles|%d requests", sum.Requests))
+		if sum.Requests < 100 {
+			c.Inconclusive("bigfiles: too few executions")
+		}
+		if sum.Crossed > 0 || sum.Errors > 0 {
+			c.Violation("concurrent:files", fmt.Sprintf("%d of %d concurrent executions of different source files did not yield the value of their own file (errors: %d): %s", sum.Crossed, sum.Requests, sum.Errors, clip(strings.Join(sum.Samples, " ; "), 600)), map[string]interface{}{"scenario": "srvharness -mode bigfiles -g 8"})
+		}
+		if blocks > 0 {
+			keys := []string{}
+			for k := range sigs {
+				keys = append(keys, k)
+			}
+			c.Violation("concurrent:files:race", fmt.Sprintf("the race detector reports %d data race(s) while different source files are read at the same time: %s", blocks, clip(strings.Join(keys, " ; "), 600)), map[string]interface{}{"scenario": "srvharness -mode bigfiles -g 8 (race build)"})
+		}
+	}
 	c.Sample(map[string]interface{}{"case": cases[0].name, "bytes": len(cases[0].data), "modes": "file, byte, fileN(n), byteN(n)"})
 	c.Sample(map[string]interface{}{"case": "corrupt/0/ow80@3", "bytes_hex": fmt.Sprintf("% x", []byte(small[0])[:12])})
 	c.Sample(map[string]interface{}{"e2e": e2es[3].name, "markers": e2es[3].markers})
